@@ -285,6 +285,20 @@ func c17concCall(raw json.RawMessage) (any, error) {
 	outcomes := map[string]bool{}
 	for _, rc := range chunk.Cases {
 		var cs ConcCase
+		// a replay artefact carries {"case": ..., "schedule": [...]}: that one schedule is executed, without the explorer
+		var rep struct {
+			Case     *ConcCase `json:"case"`
+			Schedule []int     `json:"schedule"`
+		}
+		if err := json.Unmarshal(rc, &rep); err == nil && rep.Case != nil {
+			x := runConc(*rep.Case, rep.Schedule)
+			if x.engine != "" {
+				return nil, fmt.Errorf("c17conc replay: %s", x.engine)
+			}
+			res.Evaluations++
+			res.Viol = append(res.Viol, x.viol...)
+			continue
+		}
 		if err := json.Unmarshal(rc, &cs); err != nil {
 			return nil, err
 		}
